@@ -64,7 +64,12 @@ pub fn expand(input: &syn::DeriveInput, trait_name: &str) -> syn::Result<TokenSt
         let mut where_clause = where_clause
             .cloned()
             .unwrap_or_else(|| parse_quote! { where });
-        where_clause.predicates.extend(bounds);
+        where_clause.predicates.extend(super::break_recursive_bounds(
+            bounds,
+            ident,
+            &type_params,
+            &trait_ident,
+        ));
         (impl_gens, ty_gens, where_clause)
     };
 
